@@ -118,7 +118,19 @@ func ruleWarcWait(r *core.Reporter) {
 		}
 	})
 	if len(mcs) != 1 {
-		r.Violated(name+"/feedback-channel", p.InstrPos(do), "no (single) channel is attached to the request context with context.WithValue: the WARC writer has nothing to signal, %d found", len(mcs))
+		shared := false
+		allInstrs(fn, func(in ssa.Instruction) {
+			if c, ok := in.(*ssa.Call); ok && ir.IsCallTo(c, "context.WithValue") && len(c.Call.Args) == 3 {
+				if u, isU := ir.Strip(c.Call.Args[2]).(*ssa.UnOp); isU && u.Op == token.MUL {
+					shared = true
+				}
+			}
+		})
+		if shared {
+			r.Violated(name+"/feedback-channel", p.InstrPos(do), "the feedback channel put into the request context is read from a variable shared with other goroutines (captured from the enclosing function), not a per-attempt local: one fetch's wait can be satisfied by another fetch's WARC write")
+		} else {
+			r.Violated(name+"/feedback-channel", p.InstrPos(do), "no (single) fresh channel is attached to the request context with context.WithValue: the WARC writer has nothing to signal (%d found)", len(mcs))
+		}
 		return
 	}
 	mc := mcs[0]
